@@ -334,9 +334,9 @@ def build_tree(runs):
 def design(ctx, name, c, shape):
     """Exhaustive check of Simulation.tla itself (the spec does not change with the code: a failure here is a
     machinery failure)."""
-    props = [p for p in D_PROPS]
+    invs = D_INVS + (["EndsAtFinal", "HitsAll", "DtBounds"] if c["mode"] == "time" else [])   # clock clauses of C09/C10
     m, cf = tlc.gen(ctx.work / f"sim_design_{name}", "MC_Simulation", "Simulation", sim_consts(c, shape, False),
-                    spec="SimSpec", invariants=D_INVS, properties=props, constraint="ExactOnly")
+                    spec="SimSpec", invariants=invs, properties=D_PROPS, constraint="ExactOnly")
     return ctx.tlc(m, cf, workers=8, allow_violation=False, timeout=1500, coverage=True)
 
 
